@@ -45,7 +45,6 @@ PLUGINS = {
 }
 PLUGIN_SETS = [(), ("shorter",), ("extract",), ("noreimp",), ("fwdrefs",), ("shorter", "extract", "noreimp"), (),
                ("shorter", "extract", "fwdrefs", "noreimp")]
-FS = "C10-isort-filesystem-sections"
 CORPUS = os.path.join(os.environ.get("VERIF_ROOT", "/verif"), "corpus", "C10")
 
 
@@ -261,9 +260,6 @@ def k1_scan(ctx, repo):
             f"K1 new unordered-collection site not in the model's site table: {s['file']}:{s['lines'][0]} "
             f"{s['function']}: {s['context']} {s['expression']}", {"stage": "K1 static scan", "new_site": s},
             found_input=False)
-    isort_calls = [k for k in counts if k[2] == "formatter" and k[3].startswith("isort.")]
-    ctx._forms = {"isort_fs_free": bool(isort_calls) and all(table.get(k, ("",))[0] == "puretext" for k in isort_calls)}
-    run.extra["model_forms"] = dict(ctx._forms)
     stale = [list(k) for k in table if k not in counts]
     run.extra["table_rows_not_in_code"] = stale
     run.extra["order_sensitive_rows_present"] = [list(k) for k, v in table.items() if v[1] and k in counts]
@@ -305,8 +301,10 @@ def build_cases(ctx) -> list[Case]:
 
     for f in sorted(os.listdir(CORPUS)) if os.path.isdir(CORPUS) else []:
         d = json.load(open(os.path.join(CORPUS, f)))
-        sc = scen_gen.Scenario(seed=0, sdl=d["schema"], queries=d["queries"], config=dict(d.get("config") or {}))
+        sc = scen_gen.Scenario(seed=0, sdl=d["schema"], queries=d["queries"], config=dict(d.get("config") or {}),
+                               files=dict(d.get("files") or {}))
         cases.append(Case("corpus:" + f[:-5], sc, d.get("plugins") or (), "corpus"))
+        cases[-1].selfimport = bool(d.get("selfimport"))
     n_corpus = len(cases)
     n_shared, n_stress, n_fold = (30, 36, 18) if t else (8, 10, 5)
     i = k = 0
@@ -551,8 +549,7 @@ def k1_layout(ctx, c: Case, results):
                 continue
             if not any(lv == 0 for lv, _m in imps):
                 continue
-            cmds.append([Sym("layout"), bool(ctx._forms.get("isort_fs_free")), ctx._stdlib, cwd, "gen_client", regen,
-                         early, [[lv, m] for lv, m in imps]])
+            cmds.append([Sym("layout"), ctx._stdlib, cwd, "gen_client", regen, early, [[lv, m] for lv, m in imps]])
             meta.append((key, fn, blocks))
     copied = {"async_base_client.py", "base_client.py", "async_base_client_open_telemetry.py",
               "base_client_open_telemetry.py", "base_model.py", "exceptions.py", "my_base_client.py", "scalars_pkg.py",
@@ -636,19 +633,8 @@ MAX_REPORTS, MAX_SHRINKS = 12, 2
 def report_mismatch(ctx, case: Case, what: str, la: str, lb: str, fa: dict, fb: dict, scratch, seeds=None,
                     env_variant=False):
     run = ctx.run
-    # the one open finding class: isort's first-party detection looks below cwd.  Input predicate: a generated
-    # module imports absolutely from the target package (case.selfimport), or the two runs differ in what cwd
-    # contains (env_variant); AND each differing file differs only in the arrangement of its import blocks
-    if (case.selfimport or env_variant) and not ctx._forms.get("isort_fs_free"):
-        differing = [n for n in sorted(set(fa) | set(fb)) if fa.get(n) != fb.get(n)]
-        if differing and all(n in fa and n in fb and ctx._cls.explain_fs(n, fa[n], fb[n]) for n in differing):
-            for n in differing[:3]:
-                run.finding(FS, f"{case.sid}: {n} differs between {la} and {lb} ({what})",
-                            {"case": case.sid, "variants": [la, lb], "file": n, "config": case.config(),
-                             "queries": case.sc.queries, "schema": case.sc.sdl, "extra_files": sorted(case.sc.files),
-                             "diff": udiff(fa[n], fb[n], n, la, lb, 40)})
-            run.dist("finding_files", FS, len(differing))
-            return
+    # (env_variant: the two runs differ in what cwd contains / whether the target existed; no class is open
+    #  for that since f6e5e03 — a difference is a violation like any other)
     st = ctx.__dict__.setdefault("_reports", {"n": 0, "shrinks": 0, "seen": set()})
     st["n"] += 1
     run.dist("unexplained_differences", what)
@@ -900,7 +886,7 @@ def k3(ctx, scratch):
                 stale_rel = {os.path.relpath(k, "gen_client"): v.encode() for k, v in stale_files.items()}
                 # the package as generated while the target directory exists (for the open isort class the fresh
                 # bytes differ in import blocks; that difference is reported above, not here)
-                pk = results.get((c.sid, ("regen", 0, 0)), base) if (c.selfimport and not ctx._forms.get("isort_fs_free")) else base
+                pk = base
                 p = [[k, pk[k].decode("utf-8", "surrogateescape")] for k in sorted(pk)]
                 fs = [[k, v.decode()] for k, v in stale_rel.items()]
                 try:
